@@ -21,7 +21,8 @@ namespace rkcommon {
     for (size_t i = 0; i < filename.size(); i++)
       if (filename[i] == '\\' || filename[i] == '/')
         filename[i] = path_sep;
-    while (!filename.empty() && filename[filename.size() - 1] == path_sep)
+    // trailing separators are dropped, but a lone separator is the root
+    while (filename.size() > 1 && filename[filename.size() - 1] == path_sep)
       filename.resize(filename.size() - 1);
   }
 
@@ -32,7 +33,8 @@ namespace rkcommon {
     for (size_t i = 0; i < filename.size(); i++)
       if (filename[i] == '\\' || filename[i] == '/')
         filename[i] = path_sep;
-    while (!filename.empty() && filename[filename.size() - 1] == path_sep)
+    // trailing separators are dropped, but a lone separator is the root
+    while (filename.size() > 1 && filename[filename.size() - 1] == path_sep)
       filename.resize(filename.size() - 1);
   }
 
@@ -143,6 +145,8 @@ namespace rkcommon {
   {
     if (filename == "")
       return FileName(other);
+    else if (filename[filename.size() - 1] == path_sep)  // the root
+      return FileName(filename + other.filename);
     else
       return FileName(filename + path_sep + other.filename);
   }
